@@ -17,6 +17,17 @@ type Mutex struct {
 	real   sync.Mutex
 	locked bool
 	name   string
+	// Snap (harness, state-key pruning): fingerprint of the data this lock protects, mixed into
+	// the acquiring thread's learned-values chain at every acquisition.
+	Snap func() uint64
+}
+
+func noteSnap(f func() uint64) {
+	if f != nil {
+		var v uint64
+		vrt.Quiet(func() { v = f() })
+		vrt.Note(v)
+	}
 }
 
 func (m *Mutex) obj() string {
@@ -40,6 +51,7 @@ func (m *Mutex) Lock() {
 	vrt.Block("mutex.Lock", m.obj(), func() bool { return !m.locked })
 	m.locked = true
 	vrt.HBAcquire(m)
+	noteSnap(m.Snap)
 }
 func (m *Mutex) Unlock() {
 	if !vrt.On() {
@@ -74,6 +86,7 @@ type RWMutex struct {
 	w     bool
 	r     int
 	wwait int
+	Snap  func() uint64 // see Mutex.Snap
 }
 
 type rside struct{ m *RWMutex }
@@ -94,6 +107,7 @@ func (m *RWMutex) Lock() {
 	m.w = true
 	vrt.HBAcquire(m)
 	vrt.HBAcquire(rside{m})
+	noteSnap(m.Snap)
 }
 func (m *RWMutex) Unlock() {
 	if !vrt.On() {
@@ -115,6 +129,7 @@ func (m *RWMutex) RLock() {
 	vrt.Block("rw.RLock", m.obj(), func() bool { return !m.w && m.wwait == 0 })
 	m.r++
 	vrt.HBAcquire(m)
+	noteSnap(m.Snap)
 }
 func (m *RWMutex) RUnlock() {
 	if !vrt.On() {
@@ -202,6 +217,8 @@ type Pool struct {
 	real  sync.Pool
 	items []any
 	epoch uint64
+	// Fingerprint (harness, state-key pruning): what a thread learns from a pooled object it gets.
+	Fingerprint func(any) uint64
 }
 
 func (p *Pool) sync() {
@@ -247,8 +264,14 @@ func (p *Pool) Get() any {
 		x := p.items[n-1]
 		p.items = p.items[:n-1]
 		vrt.HBAcquire(p)
+		if p.Fingerprint != nil {
+			vrt.Note(1 + p.Fingerprint(x))
+		} else {
+			vrt.Note(uint64(n))
+		}
 		return x
 	}
+	vrt.Note(0)
 	if p.New != nil {
 		return p.New()
 	}
